@@ -400,7 +400,7 @@ func parallelWorlds(nw int, base int, k uint, timeout time.Duration, cases []rep
 
 // ---- mode c05: boundary lattice of (advertised size, upstream length) ----
 func replyC05(r *rng, n int, base int, timeout time.Duration) error {
-	adv := []int{-1, 0, 1, 511, 512, 513, 1232, 4093, 4094, 4095, 8000, 65506, 65507}
+	adv := []int{-1, 0, 1, 511, 512, 513, 1232, 4093, 4094, 4095, 8000, 65506, 65507, 65508, 65520, 65535}
 	var pairs [][2]int
 	seen := map[[2]int]bool{}
 	add := func(m, l int) {
@@ -430,7 +430,7 @@ func replyC05(r *rng, n int, base int, timeout time.Duration) error {
 		m := -1
 		switch r.intn(4) {
 		case 0:
-			m = r.rng(0, 65507)
+			m = r.rng(0, 65535)
 		case 1:
 			m = r.rng(400, 5000)
 		case 2:
@@ -559,10 +559,6 @@ func replySeq(r *rng, n int, base int, timeout time.Duration) error {
 		}
 		if len(qc.q) <= 14 {
 			c.expectSilence = true
-		}
-		if proto == "udp" && qc.adv > 65507 {
-			// outside C01's quantifier (advertised size <= 65507): keep the reply small
-			c.upFill = 0
 		}
 		if len(qc.q) > 65535 {
 			continue
